@@ -24,7 +24,7 @@ func init() {
 	ev.Register(&ev.Check{
 		ID:             "C12",
 		Level:          "model_checking",
-		Rule:           "stateless exploration (CHESS-style DFS over choice prefixes) of the REAL library under a controlled scheduler injected by a build overlay (every sync.Once/Mutex/RWMutex/Pool operation of the library is a scheduling point; exactly one test goroutine runs at a time): scenarios S1 (uncompiled shared schema with types/enum, 2 threads x every ordered pair of ops from {Check, Validate, Example, GetAST, Len, UsedUserTypes}, 3 threads x 1 op), S2 (2 threads x 2 ops: first use + reuse), S3 (two root schemas sharing one added-type object using allOf + or, compiled concurrently), S4 (shared compiled schema validated by 2 threads while a third creates, compiles and Example()s a private schema), S5 (enum rule / regex type first use), S6 (2 and 3 goroutines each creating, loading, compiling and using private schemas: only the global pools are shared); ALL interleavings with <= 2 preemptions (3 threads: <= 1; thorough: 3 / 2) crossed with pool-answer deviations (<= 1). Oracle per execution: every call returns exactly its sequential result; every Once body ran once; no deadlock/livelock; the race detector (running as per-execution happens-before monitor: the scheduler's hand-off is invisible to it) reports nothing. states = distinct decision points visited, transitions = scheduling decisions taken, traces_validated_against_impl = executions (each one is an execution of the implementation).",
+		Rule:           "stateless exploration (CHESS-style DFS over choice prefixes) of the REAL library under a controlled scheduler injected by a build overlay (every sync.Once/Mutex/RWMutex/Pool operation of the library is a scheduling point; exactly one test goroutine runs at a time): scenarios S1 (uncompiled shared schema with types/enum, 2 threads x every ordered pair of ops from {Check, Validate, Example, GetAST, Len, UsedUserTypes}, 3 threads x 1 op), S2 (2 threads x 2 ops: first use + reuse), S3 (two root schemas sharing one added-type object using allOf + or, compiled concurrently), S4 (shared compiled schema validated by 2 threads while a third creates, compiles and Example()s a private schema), S5 (enum rule / regex type first use), S6 (2 and 3 goroutines each creating, loading, compiling and using private schemas: only the global pools are shared), S7 (first use of a shared schema WITHOUT added types, valid and invalid: its first load is raced as well); ALL interleavings with <= 2 preemptions (3 threads: <= 1; thorough: 3 / 2) crossed with pool-answer deviations (<= 1). Oracle per execution: every call returns exactly its sequential result; every Once body ran once; no deadlock/livelock; the race detector (running as per-execution happens-before monitor: the scheduler's hand-off is invisible to it) reports nothing. states = distinct decision points visited, transitions = scheduling decisions taken, traces_validated_against_impl = executions (each one is an execution of the implementation).",
 		Workers:        func(string) int { return 16 },
 		Run:            run,
 		Replay:         replay,
@@ -149,6 +149,44 @@ func opsScenario(name string, perThread [][]int, precompiled bool) scenario {
 		}
 	}}}
 }
+
+// plainScenario (S7): a shared schema WITHOUT added types or rules. AddType and
+// AddRule load a schema while it is being set up; this one is neither loaded nor
+// compiled when the goroutines start, so its first load is raced as well. The
+// second schema is invalid (its verdict comes from the compilation).
+func plainScenario(name, text string, perThread [][]int) scenario {
+	exp := map[string]string{}
+	for _, o := range ops {
+		exp[o.name] = o.f(jschema.New("plain", text))
+	}
+	return scenario{heavy: true, name: name, threads: len(perThread), sc: sched.Scenario{Name: "S7", Setup: func() ([]func(), func(*shim.Execution) string) {
+		s := jschema.New("plain", text)
+		results := make([][]string, len(perThread))
+		var bodies []func()
+		for ti, list := range perThread {
+			ti, list := ti, list
+			results[ti] = make([]string, len(list))
+			bodies = append(bodies, func() {
+				for k, oi := range list {
+					results[ti][k] = ops[oi].f(s)
+				}
+			})
+		}
+		return bodies, func(e *shim.Execution) string {
+			for ti, list := range perThread {
+				for k, oi := range list {
+					if results[ti][k] != exp[ops[oi].name] {
+						return fmt.Sprintf("thread %d: %s returned %.200q, sequentially it returns %.200q", ti, ops[oi].name, results[ti][k], exp[ops[oi].name])
+					}
+				}
+			}
+			return ""
+		}
+	}}}
+}
+
+const plainValid = "{\n  \"id\": 1, // {min: 0}\n  \"tags\": [\n    \"a\"\n  ],\n  \"o\": 1 // {or: [{type: \"integer\"}, {type: \"string\"}]}\n}"
+const plainInvalid = "{\n  \"id\": 1, // {min: 7, max: 3}\n  \"ref\": @missing\n}"
 
 func sharedTypeScenario() scenario {
 	const tText = "{ // {allOf: \"@base\"}\n  \"v\": 1 // {or: [{type: \"integer\", min: 0}, \"string\"]}\n}"
@@ -327,6 +365,12 @@ func scenarios(thorough bool) []scenario {
 			}
 		}
 	}
+	// S7: a schema without added types: the first LOAD is raced too
+	for _, p := range [][2]int{{6, 0}, {0, 0}, {6, 3}, {5, 6}, {6, 1}, {4, 6}} {
+		out = append(out, plainScenario(fmt.Sprintf("S7 plain schema first use: %s || %s", ops[p[0]].name, ops[p[1]].name), plainValid, [][]int{{p[0]}, {p[1]}}))
+	}
+	out = append(out, plainScenario("S7 invalid plain schema: UsedUserTypes || Check || Check", plainInvalid, [][]int{{6}, {0}, {0}}))
+	out = append(out, plainScenario("S7 invalid plain schema: UsedUserTypes;Check || Check;UsedUserTypes", plainInvalid, [][]int{{6, 0}, {0, 6}}))
 	// S2: 2 threads x 2 ops
 	pairs := [][2]int{{0, 1}, {1, 3}, {3, 1}, {4, 1}, {1, 2}, {6, 0}, {5, 3}}
 	if !thorough {
@@ -388,6 +432,7 @@ func run(c *ev.Ctx) {
 		var st sched.Stats
 		for _, b := range bounds(sn, c.Thorough()) {
 			b := b
+			b.Stop = c.Expired
 			one := sched.Explore(sn.sc, b, func(ch []int, e *shim.Execution, verdict string) {
 				c.Inc("traces_validated_against_impl")
 				c.Eval(len(e.Decisions) > 1)
@@ -425,7 +470,7 @@ func run(c *ev.Ctx) {
 				st.MaxDepth = one.MaxDepth
 			}
 			if one.Capped {
-				c.Cap(fmt.Sprintf("execution cap %d reached in %q with bounds %v", b.MaxExec, sn.name, b))
+				c.Cap(fmt.Sprintf("execution cap %d or the deadline reached in %q with bounds {P:%d E:%d}", b.MaxExec, sn.name, b.Preemptions, b.EnvDevs))
 			}
 		}
 		c.Inc("scenarios")
